@@ -11,6 +11,7 @@ model of the import (same packet lists), model vs ground truth.
 
 This module also holds the generator / renderer / parser shared with checks/c08.py.
 """
+import atexit
 import json
 import os
 import random
@@ -479,17 +480,36 @@ def oracle_c05(cs, visible):
 
 
 # ---------------------------------------------------------------- execution
+RUN_ID = str(os.getpid())          # concurrent checks of one property must not share case/output files
+_RUN_FILES = []
+
+
+def _cleanup():
+    if not os.environ.get("VERIF_KEEP"):
+        for f in _RUN_FILES:
+            try:
+                os.remove(f)
+            except OSError:
+                pass
+
+
+atexit.register(_cleanup)
+
+
 def run_impl(text, tag, prop="c05", overlay_extra=None, env_extra=None, timeout=900, repo_patch=None):
     d = os.path.join(BUILD, "run", prop)
     os.makedirs(d, exist_ok=True)
+    tag = tag + "_" + RUN_ID
     cf = os.path.join(d, "cases_%s.txt" % tag)
     open(cf, "w").write(text)
     iout = os.path.join(d, "impl_%s.out" % tag)
     if os.path.exists(iout):
         os.remove(iout)
+    _RUN_FILES.extend([cf, iout])
     files = dict(HARNESS)
     files.update(overlay_extra or {})
     ov = go_overlay(files, prop + "_" + tag)
+    _RUN_FILES.append(ov)
     env = {"VERIF_CASES": cf, "VERIF_OUT": iout}
     env.update(env_extra or {})
     rc, out, dt = go_test("./internal/index/builder/", ov, "^TestVerifC05$", env, timeout=timeout)
@@ -507,7 +527,9 @@ def snap_overlay():
         raise RuntimeError("snapshot interval literal not found exactly once in builder.go")
     d = os.path.join(BUILD, "overlay")
     os.makedirs(d, exist_ok=True)
-    p = os.path.join(d, "builder_snapevery.go")
+    p = os.path.join(d, "builder_snapevery_%s.go" % RUN_ID)
+    if p not in _RUN_FILES:
+        _RUN_FILES.append(p)
     open(p, "w").write(src.replace(pat, "nPacketsAfterSnapshot >= verifSnapEvery"))
     return {"internal/index/builder/builder.go": p}
 
@@ -728,9 +750,10 @@ def model_flags():
 
 def run_model(exe, cf, tag, prop="c05"):
     d = os.path.join(BUILD, "run", prop)
-    mout = os.path.join(d, "model_%s.out" % tag)
+    mout = os.path.join(d, "model_%s_%s.out" % (tag, RUN_ID))
     if os.path.exists(mout):
         os.remove(mout)
+    _RUN_FILES.append(mout)
     # extracted list functions are not tail recursive: large capture sets need a large stack
     rc, out, dt = run(["bash", "-c", 'ulimit -s unlimited 2>/dev/null || ulimit -s 4000000 2>/dev/null; exec "$@"', "bash", exe, cf, mout] + model_flags(), timeout=1800)
     note = "" if rc == 0 else "model driver rc=%d: %s" % (rc, out[-800:])
@@ -838,6 +861,16 @@ def main(tier, seed, replay=None):
                 print("run %s: %s" % (label, v))
                 for e in errs:
                     print("   ", e[:400])
+                for who, rr_ in (("impl ", res), ("model", mres)):
+                    st_ = (rr_.get(cs.name, {}).get(label) or {"steps": []})["steps"]
+                    if st_:
+                        print("    %s visible after the last import:" % who)
+                        for s_ in st_[-1]["streams"].values():
+                            print("        id %d %s" % (s_["id"], show_stream(s_)[:300]))
+                print("    spec (ground truth):")
+                for e_ in expected_streams(cs):
+                    print("        %s %s:%d>%s:%d data=%s" % (e_["proto"], e_["client"][0], e_["client"][1], e_["server"][0], e_["server"][1],
+                                                             ",".join(d + b.hex() for d, b in e_["runs"])[:300] or "-"))
         bad = [(l, v, e) for l, v, e, _ in results if v == "violation"]
         for l, v, e, _ in results:
             if v.startswith("known:"):
@@ -858,7 +891,7 @@ def main(tier, seed, replay=None):
             cids = ddmin([c.cid for c in cs.convs], fails, max_tests=40)
             sub, r2 = nonempty_runs(restrict(cs, cids), [r for r in runs if r[0] == label])
             rr, _, _, _ = run_impl(render_case(sub, r2), "min", overlay_extra=(snap_overlay() if cs.name in use_overlay else None))
-            mm = rr if nomodel else run_model(exe, os.path.join(BUILD, "run", "c05", "cases_min.txt"), "min")[0]
+            mm = rr if nomodel else run_model(exe, os.path.join(BUILD, "run", "c05", "cases_min_%s.txt" % RUN_ID), "min")[0]
             violation(PROP, {"property": PROP, "kind": "impl!=ground-truth", "snap_overlay": cs.name in use_overlay, "set": set_to_json(sub, r2), "errors": check_set(sub, r2, rr)[0][2][:10],
                              "impl_visible": [show_stream(s) for s in (rr.get(sub.name, {}).get(label, {"steps": [{"streams": {}}]})["steps"] or [{"streams": {}}])[-1]["streams"].values()],
                              "model_visible": [show_stream(s) for s in (mm.get(sub.name, {}).get(label, {"steps": [{"streams": {}}]})["steps"] or [{"streams": {}}])[-1]["streams"].values()],
